@@ -145,15 +145,67 @@ def reasserted_later(state, logic=None, decls=None, budget=60):
         else:
             acc.add(t)
         return acc
-    n = 0
-    for a, b in pairs:
-        if syms(sc.strip_named(a), set()) - {"and", "or", "not", "=>", "true", "false"} != syms(sc.strip_named(b), set()) - {"and", "or", "not", "=>", "true", "false"}:
-            continue
-        n += 1
-        if n > budget:
-            break
+    boolops = {"and", "or", "not", "=>", "true", "false"}
+    key = lambda ab: 0 if syms(sc.strip_named(ab[0]), set()) - boolops == syms(sc.strip_named(ab[1]), set()) - boolops else 1
+    for a, b in sorted(pairs, key=key)[:budget]:
         if equivalent(logic, decls, a, b):
             return True
+    return False
+
+
+def _simp(t):
+    """construction-time simplification, roughly: names stripped, => expanded, double negation, neutral constants and
+    duplicates of and/or removed, one-argument and/or collapsed (arguments NOT flattened)"""
+    t = sc.strip_named(t)
+    if not isinstance(t, list) or not t:
+        return t
+    h = t[0]
+    if h == "=>" and len(t) >= 3:
+        return _simp(["or"] + [["not", a] for a in t[1:-1]] + [t[-1]])
+    args = [_simp(x) for x in t[1:]]
+    if h == "not" and len(args) == 1 and isinstance(args[0], list) and args[0] and args[0][0] == "not":
+        return args[0][1]
+    if h in ("and", "or"):
+        neutral = "true" if h == "and" else "false"
+        seen, out = set(), []
+        for a in args:
+            k = sx_str(a)
+            if k == neutral or k in seen:
+                continue
+            seen.add(k)
+            out.append(a)
+        if not out:
+            return neutral
+        if len(out) == 1:
+            return out[0]
+        return [h] + out
+    return [h] + args
+
+
+def needs_flattening(t):
+    """does the Boolean structure of the (construction-simplified) term have an and directly below an and / an or directly
+    below an or?  (MainSolver::rewriteMaxArity then produces a different term before clausification)"""
+    def walk(x):
+        if not isinstance(x, list) or not x:
+            return False
+        if x[0] in ("and", "or") and any(isinstance(a, list) and a and a[0] == x[0] for a in x[1:]):
+            return True
+        if x[0] in ("and", "or", "not", "xor", "=", "ite"):
+            return any(walk(a) for a in x[1:])
+        return False
+    return walk(_simp(t))
+
+
+def rewritten_form_is_another_assertion(state):
+    """is there a CURRENT assertion that preprocessing flattens and whose flattened form is, as it stands, another
+    top-level assertion of the history (popped or not)?  PartitionManager::getPartitionIndex(rewritten term) then finds
+    that other assertion's index first (top_level_flas before other_flas)."""
+    hist = state.history
+    flat = {norm(h) for h in hist if not needs_flattening(h)}
+    for f in state.frames:
+        for body, _, _ in f["items"]:
+            if needs_flattening(body) and norm(body) in flat:
+                return True
     return False
 
 
